@@ -1252,3 +1252,26 @@ Section Exact.
     refines nattrs (fst (trk_run nattrs (trk_init ttl ordered) h)) (sp_run_exact ttl ordered (map abs_op h)).
   Proof. apply (run_refines_exact h (trk_init ttl ordered) []); [apply inv_init | intros m; reflexivity]. Qed.
 End Exact.
+
+(* ================================================================================= statements over reachable states *)
+Section Reachable.
+  Context {V : Type}.
+  Variable nattrs : nat.
+
+  Lemma step_cfg_reachable (st : trk_tracker V) op : reachable nattrs st ->
+    t_ordered (r_state (trk_step nattrs st op)) = t_ordered st /\ t_ttl (r_state (trk_step nattrs st op)) = t_ttl st.
+  Proof. intros R. apply step_cfg. now apply reachable_inv. Qed.
+
+  Lemma step_events_reachable (st : trk_tracker V) op m : reachable nattrs st ->
+    let res := trk_step nattrs st op in
+    sp_events_of m (abs_calls (r_calls res)) =
+      sp_expected_events (step_target op res) m (idict_mem (t_tracks st) m) (idict_mem (t_tracks (r_state res)) m) /\
+    (idict_mem (t_tracks st) m = false -> step_target op res <> Some m ->
+     idict_mem (t_tracks (r_state res)) m = false).
+  Proof. intros R. apply step_events. now apply reachable_inv. Qed.
+
+  Lemma rejected_emits_nothing (st : trk_tracker V) now (msg : trk_msg V) ts : reachable nattrs st ->
+    let res := trk_step nattrs st (OpUpdate now msg ts) in
+    r_exn res <> None -> r_calls res = [] /\ r_state res = st.
+  Proof. intros R res H. destruct (proj2 (rejected_unchanged nattrs st now msg ts R) H) as (A & B & _). auto. Qed.
+End Reachable.
